@@ -18,6 +18,12 @@ NOT_APPLICABLE = {
 }
 
 CHECKS = {
+    "C12": {
+        "level_text": "Proof per instantiation over all leaf values (u8 leaves; generic impls are parametric in T): single-use vs repeatable contracts of Owning and of the builder paths that choose between them, and of the composite containers. Partial: races between threads and the compile-fail half are out of reach.",
+        "design_ref": "DESIGN.md §4 C12",
+        "level_note": "Trusted: Kani/CBMC; parametricity of the generic impls in the leaf type; std Mutex.",
+        "technique": "function contracts: Kani full-domain contract harnesses per instantiation",
+    },
     "C14": {
         "level_text": "Proof per function over all inputs: 15 tuple impls (recording sink, symbolic success/failure per element), assembler push cases, empty stub; flattening lemma by structural induction over clause trees. Partial: the compile-time half has no runtime obligation.",
         "design_ref": "DESIGN.md §4 C14",
